@@ -46,6 +46,15 @@ def evaluate_here(req):
         p = DDLParser(req["ddl"], **req.get("flags", {}))
     except BaseException as e:  # noqa
         return ["ctor-exc"] + core.outcome_of_exception(e)[1:]
+    if "runs" in req:
+        # the object's own call history, alone in the process: outcome of every run() in order
+        outs = []
+        for kw in req["runs"]:
+            try:
+                outs.append(["ok", core.canon(p.run(**kw))])
+            except BaseException as e:  # noqa
+                outs.append(core.outcome_of_exception(e))
+        return ["history", outs]
     try:
         r = p.run(**req.get("run", {}))
     except BaseException as e:  # noqa
@@ -155,6 +164,26 @@ class Reference:
         out = _read_msg(self.rfd)
         if out and out[0] in ("crash", "harness-exc"):
             raise RuntimeError("reference evaluation failed: %r" % (out,))
+        self.memo[key] = out
+        self.new_entries.append((key, out))
+        return out
+
+    def history(self, ddl, flags, runs):
+        """Outcomes of run(**runs[0]), run(**runs[1]), ... on ONE object that is the only parser of a pristine process.
+        Returns a list of outcomes, or ["ctor-exc", ...] if the constructor raised."""
+        req = {"ddl": ddl, "flags": flags or {}, "runs": list(runs)}
+        key = core.cjson(req)
+        self.calls += 1
+        if key in self.memo:
+            self.hits += 1
+            return self.memo[key]
+        if self.cwd:
+            req["cwd"] = self.cwd
+        _write_msg(self.wfd, req)
+        out = _read_msg(self.rfd)
+        if out and out[0] in ("crash", "harness-exc"):
+            raise RuntimeError("reference evaluation failed: %r" % (out,))
+        out = out[1] if out and out[0] == "history" else out
         self.memo[key] = out
         self.new_entries.append((key, out))
         return out
